@@ -13,6 +13,8 @@ def resolve(args, p):
   for k in p[1:]:
     if isinstance(x, nnx.Object):
       x = getattr(x, k)
+    elif isinstance(x, IG.NT):
+      x = getattr(x, k)
     elif isinstance(x, (list, tuple)):
       x = x[k]
     elif isinstance(x, dict):
@@ -98,6 +100,9 @@ def observe(objs0, args, out_obj):
         for k, v in sorted(vars(x).items()):
           if k != '_object__state':
             go(v)
+    elif isinstance(x, IG.NT):
+      for k, v in sorted(x._asdict().items()):
+        go(v)
     elif isinstance(x, (list, tuple)):
       for v in x:
         go(v)
